@@ -299,9 +299,13 @@ def julianDateToDatetime(julian_date):
     year, month, day, hour, minute, second = julian_date.calendar_date
     date_time = datetime(int(year), int(month), int(day), int(hour), int(minute))
     # Handle floating-point error in JulianDate -> calendar date/time conversion
-    # [NOTE] This implementation assumes that time steps will always be multiples of whole seconds,
-    #   so the seconds are rounded to the nearest whole second (and carried) rather than truncated.
-    return date_time + timedelta(seconds=int(round(float(second))))
+    # [NOTE] Time steps are multiples of whole seconds, so seconds that sit within the resolution of a
+    #   Julian date (tens of microseconds) of a whole second are rounded to it (and carried) rather than
+    #   truncated. A genuine sub-second part (e.g. a scenario starting at 16:00:07.5) is kept.
+    seconds = float(second)
+    if abs(seconds - round(seconds)) < 5.0e-4:
+        seconds = int(round(seconds))
+    return date_time + timedelta(seconds=seconds)
 
 
 class ScenarioTime(float):
